@@ -14,7 +14,8 @@ Open Scope Z_scope.
 (* data                                                                                  *)
 
 Record tile := Tile { t_gc : Z; t_n : Z; t_sig : Z; t_bin : nat }.
-Record chrom := Chrom { c_len : Z; c_tiles : list tile }.
+(* c_bw: the chromosome is present in the bigwig (irrelevant without a bigwig) *)
+Record chrom := Chrom { c_len : Z; c_bw : bool; c_tiles : list tile }.
 
 (* an input locus (BED row) + what the harness measured for it:
    [l_rs, l_re) is the in_window region the G+C / N counts were taken on,
@@ -48,7 +49,7 @@ Definition fixed : quirks := Quirks false false false false.
 Definition outcome := res (list (nat * Z * Z)).     (* (chromosome index, start, end) *)
 
 Definition dtile : tile := Tile 0 0 0 0.
-Definition dchrom : chrom := Chrom 0 [].
+Definition dchrom : chrom := Chrom 0 true [].
 
 (* ------------------------------------------------------------------------------------ *)
 (* the matching core on GC histograms (match.py "Match the sizes")                       *)
@@ -161,9 +162,12 @@ Definition robust_min100 (sig : list Z) : option Z :=
       Some (100 * alo + (ahi - alo) * g)
   end.
 
-(* the 1% quantile of the signal of the valid loci (times 100); computed once per call *)
+(* the 1% quantile of the signal of the valid loci (times 100); computed once per call.
+   _extract_counts returns nan for a locus whose chromosome is not in the bigwig, and
+   nanquantile ignores it *)
 Definition robust (k : call) : option Z :=
-  robust_min100 (map l_sig (filter (locus_valid k) (k_loci k))).
+  robust_min100 (map l_sig (filter (fun l => locus_valid k l && c_bw (chrom_of k (l_chrom l)))
+                                   (k_loci k))).
 
 (* values <= threshold, threshold = robust_min * beta, everything scaled by 100 * q_beta;
    a nan threshold (no valid locus) passes nothing.  [thr] is [robust k]. *)
@@ -187,10 +191,16 @@ Definition tile_of (k : call) (ct : nat * nat) : tile :=
 
 (* _extract_and_filter_chrom: indices of the tiles passing n_perc <= max_n_perc and the
    signal filter (the GC bin travels with the tile) *)
+Definition has_signal (k : call) (c : nat) : bool :=
+  match k_bigwig k with Some _ => c_bw (chrom_of k c) | None => true end.
+
+(* (bw.values raising RuntimeError for a chromosome absent from the bigwig -> return {}) *)
 Definition extract_chrom (qk : quirks) (k : call) (thr : option Z) (c : nat) : list (nat * nat) :=
-  map (pair c)
+  if has_signal k c then
+    map (pair c)
       (filter (fun t => n_frac_ok false k (t_n (tile_of k (c, t))) && sig_ok qk k thr (tile_of k (c, t)))
-              (seq 0 (ntiles k c))).
+              (seq 0 (ntiles k c)))
+  else [].
 
 (* Parallel(n_jobs)(f(x) for x in xs): order-preserving; [jobs] consecutive tasks at a time *)
 Definition parallel {A B} (jobs : nat) (f : A -> B) (xs : list A) : list B :=
